@@ -15,24 +15,24 @@ Qed.
 (* clean means panic-free *)
 Theorem whole_sound prog afuel ctr pk r st :
   analyze_program afuel ctr pk prog = Some r -> r_gsafe r = true -> r_clocal r = true ->
-  wf_program prog = true -> ctr_arity ctr 0 (p_funcs prog) = true ->
+  wf_program prog = true -> ctr_arity ctr 0 (p_funcs prog) = true -> impls_plain prog ctr = true ->
   (forall g fd, ctr g = true -> nth_error (p_funcs prog) g = Some fd -> contract_true prog fd) ->
   pkg_run [] [] (all_triggers r) st -> conflicts st = [] ->
   forall fuel oracle, panic_of (run_program prog fuel oracle) = None.
 Proof.
-  intros Han Hg Hl Hwf Har Hct Hr Hc. eapply flow_sound; eauto. eapply engine_clean_no_flow; eauto.
+  intros Han Hg Hl Hwf Har Him Hct Hr Hc. eapply flow_sound; eauto. eapply engine_clean_no_flow; eauto.
 Qed.
 
 (* some execution dereferences nil => at least one conflict is reported *)
 Theorem whole_reported prog afuel ctr pk r st fuel oracle d :
   analyze_program afuel ctr pk prog = Some r -> r_gsafe r = true -> r_clocal r = true ->
-  wf_program prog = true -> ctr_arity ctr 0 (p_funcs prog) = true ->
+  wf_program prog = true -> ctr_arity ctr 0 (p_funcs prog) = true -> impls_plain prog ctr = true ->
   (forall g fd, ctr g = true -> nth_error (p_funcs prog) g = Some fd -> contract_true prog fd) ->
   pkg_run [] [] (all_triggers r) st ->
   panic_of (run_program prog fuel oracle) = Some d -> conflicts st <> [].
 Proof.
-  intros Han Hg Hl Hwf Har Hct Hr Hp Hc.
-  rewrite (whole_sound _ _ _ _ _ _ Han Hg Hl Hwf Har Hct Hr Hc fuel oracle) in Hp. discriminate.
+  intros Han Hg Hl Hwf Har Him Hct Hr Hp Hc.
+  rewrite (whole_sound _ _ _ _ _ _ Han Hg Hl Hwf Har Him Hct Hr Hc fuel oracle) in Hp. discriminate.
 Qed.
 
 (* every sink of the emitted constraints is a dereference whose producers can fire: if those all sit at one
@@ -57,6 +57,8 @@ Proof.
 Qed.
 
 (* ---------- witnesses ---------- *)
+(* compute the analysis result first (closed term), then everything else about it *)
+Ltac ex_solve := do 2 eexists; split; [vm_compute; reflexivity|]; repeat split; vm_compute; try reflexivity; try discriminate.
 Definition all_exported (s : site) := true.
 Definition no_ctr (f : fname) := false.
 Definition one_pkg (f : fname) := 0.
@@ -73,7 +75,7 @@ Definition ex_ok : program :=
          {| f_nparams := 2;
             f_body := SSeq (SIf (COr (CNot (CNonNil (VL 0))) (CDeref 3 (VL 0))) (SReturn ANil) SSkip)
                            (SReturn (AVar (VL 1))) |} ];
-     p_ginit := [false] |}.
+     p_ginit := [false]; p_impls := [] |}.
 
 Example ex_ok_premises :
   exists r res,
@@ -81,7 +83,7 @@ Example ex_ok_premises :
     wf_program ex_ok = true /\ ctr_arity no_ctr 0 (p_funcs ex_ok) = true /\
     analyze_pkg all_exported 200 [] [] (all_triggers r) = Finished res /\ r_conflicts res = [] /\
     guarded ex_ok = true.
-Proof. vm_compute. do 2 eexists. repeat split; reflexivity. Qed.
+Proof. ex_solve. Qed.
 
 (* F2: the tracked package-level variable is not invalidated by the call that re-assigns it *)
 Definition ex_global : program :=
@@ -89,7 +91,7 @@ Definition ex_global : program :=
        [ {| f_nparams := 0;
             f_body := SSeq (SAssign (VG 0) ANew) (SSeq (SCall 1 None 1 []) (SDeref 1 (VG 0))) |};
          {| f_nparams := 0; f_body := SAssign (VG 0) ANil |} ];
-     p_ginit := [true] |}.
+     p_ginit := [true]; p_impls := [] |}.
 
 Theorem refuted_without_call_safety :
   exists prog r st fuel oracle,
@@ -100,7 +102,7 @@ Theorem refuted_without_call_safety :
 Proof.
   assert (H : exists r res, analyze_program 8 no_ctr one_pkg ex_global = Some r /\ r_gsafe r = false /\ r_clocal r = true /\
              analyze_pkg all_exported 200 [] [] (all_triggers r) = Finished res /\ r_conflicts res = []).
-  { vm_compute. do 2 eexists. repeat split; reflexivity. }
+  { ex_solve. }
   destruct H as [r [res [Ha [Hg [Hl [Hr Hc]]]]]].
   destruct (analyze_pkg_run all_exported 200 [] [] _ res (or_introl Hr)) as [st [Hrun [Hcs _]]].
   exists ex_global, r, st, 10, []. repeat split; auto. congruence.
@@ -112,7 +114,7 @@ Definition ex_xpkg : program :=
        [ {| f_nparams := 0;
             f_body := SSeq (SCall 1 (Some (VL 1)) 1 [AVar (VL 0)]) (SDeref 1 (VL 1)) |};
          {| f_nparams := 1; f_body := SReturn (AVar (VL 0)) |} ];
-     p_ginit := [] |}.
+     p_ginit := []; p_impls := [] |}.
 Definition ctr1 (f : fname) := Nat.eqb f 1.
 Definition two_pkgs (f : fname) := match f with 0 => 1 | _ => 0 end.
 
@@ -125,7 +127,7 @@ Theorem refuted_without_contract_locality :
 Proof.
   assert (H : exists r res, analyze_program 8 ctr1 two_pkgs ex_xpkg = Some r /\ r_gsafe r = true /\ r_clocal r = false /\
              analyze_pkg all_exported 200 [] [] (all_triggers r) = Finished res /\ r_conflicts res = []).
-  { vm_compute. do 2 eexists. repeat split; reflexivity. }
+  { ex_solve. }
   destruct H as [r [res [Ha [Hg [Hl [Hr Hc]]]]]].
   destruct (analyze_pkg_run all_exported 200 [] [] _ res (or_introl Hr)) as [st [Hrun [Hcs _]]].
   exists ex_xpkg, r, st, 10, []. repeat split; auto. congruence.
@@ -135,7 +137,7 @@ Qed.
 Example xpkg_local_reported :
   exists r res, analyze_program 8 ctr1 one_pkg ex_xpkg = Some r /\ r_clocal r = true /\
     analyze_pkg all_exported 200 [] [] (all_triggers r) = Finished res /\ r_conflicts res <> [].
-Proof. vm_compute. do 2 eexists. repeat split; try reflexivity. discriminate. Qed.
+Proof. ex_solve. Qed.
 
 (* ---------- contracts (C20) ---------- *)
 From NM Require Import Contract.
@@ -154,12 +156,12 @@ Qed.
 (* clean means panic-free when the contracts are those the (intraprocedural) inference accepts *)
 Theorem whole_sound_inferred prog afuel hf ctr pk r st :
   analyze_program afuel ctr pk prog = Some r -> r_gsafe r = true -> r_clocal r = true ->
-  wf_program prog = true ->
+  wf_program prog = true -> impls_plain prog ctr = true ->
   (forall g fd, ctr g = true -> nth_error (p_funcs prog) g = Some fd -> infer_sem hf fd = true) ->
   pkg_run [] [] (all_triggers r) st -> conflicts st = [] ->
   forall fuel oracle, panic_of (run_program prog fuel oracle) = None.
 Proof.
-  intros Han Hg Hl Hwf Hinf Hr Hc. eapply whole_sound; eauto.
+  intros Han Hg Hl Hwf Him Hinf Hr Hc. eapply whole_sound; eauto.
   - apply (inferred_arity hf). intros i fd Hn Hci. eapply Hinf; eauto.
   - intros g fd Hcg Hn. eapply infer_sem_sound. eauto.
 Qed.
@@ -185,6 +187,48 @@ Proof. vm_compute. repeat split; reflexivity. Qed.
 
 (* the loop body really returns nil for a non-nil argument *)
 Example loop_overwrite_not_a_contract :
-  exists fuel oracle, exec {| p_funcs := [fd_loop_overwrite]; p_ginit := [true] |} fuel (f_body fd_loop_overwrite)
-                           (bind_params 0 [VPtr]) oracle = OReturn VNil [(VL 0, VNil); (VL 0, VPtr)] [].
+  exists fuel oracle, exec {| p_funcs := [fd_loop_overwrite]; p_ginit := [true]; p_impls := [] |} fuel (f_body fd_loop_overwrite)
+                           (bind_params 0 [VPtr None]) oracle = OReturn VNil [(VL 0, VNil); (VL 0, VPtr None)] [].
 Proof. exists 10, [true]. reflexivity. Qed.
+
+
+(* ---------- interfaces (C09) ---------- *)
+(* I0 { X0x0(a *T) *T }; S0 implements it by function 1 (receiver, a): dereferences a, returns nil.
+   F0: y := &S0{} as I0; x := y.X0x0(nil); x.V  -- both directions of the flow are reported *)
+Definition ex_iface : program :=
+  {| p_funcs :=
+       [ {| f_nparams := 0;
+            f_body := SSeq (SConv (VL 40) 0 0)
+                     (SSeq (SCallI 1 1 (Some (VL 0)) (VL 40) 0 0 [ANil]) (SDeref 2 (VL 0))) |};
+         {| f_nparams := 2; f_body := SSeq (SDeref 3 (VL 1)) (SReturn ANil) |} ];
+     p_ginit := []; p_impls := [[1]] |}.
+
+Example iface_flows_reported :
+  exists r res, analyze_program 8 no_ctr one_pkg ex_iface = Some r /\ wf_program ex_iface = true /\
+    impls_plain ex_iface no_ctr = true /\
+    analyze_pkg all_exported 200 [] [] (all_triggers r) = Finished res /\ length (r_conflicts res) = 2.
+Proof. ex_solve. Qed.
+
+(* the same program with the nil flows removed (argument allocated, implementation returns an allocation) is clean
+   and meets every premise of the soundness theorem *)
+Definition ex_iface_ok : program :=
+  {| p_funcs :=
+       [ {| f_nparams := 0;
+            f_body := SSeq (SConv (VL 40) 0 0)
+                     (SSeq (SCallI 1 1 (Some (VL 0)) (VL 40) 0 0 [ANew]) (SDeref 2 (VL 0))) |};
+         {| f_nparams := 2; f_body := SSeq (SDeref 3 (VL 1)) (SReturn ANew) |} ];
+     p_ginit := []; p_impls := [[1]] |}.
+
+Example iface_ok_premises :
+  exists r res, analyze_program 8 no_ctr one_pkg ex_iface_ok = Some r /\ r_gsafe r = true /\ r_clocal r = true /\
+    wf_program ex_iface_ok = true /\ impls_plain ex_iface_ok no_ctr = true /\
+    analyze_pkg all_exported 200 [] [] (all_triggers r) = Finished res /\ r_conflicts res = [].
+Proof. ex_solve. Qed.
+
+(* without the triggers of the (interface, implementation) pair the flow through dynamic dispatch is lost: the
+   constraint system of ex_iface minus its affiliation triggers has no flow into dereference 3 / from the result *)
+Example iface_affiliation_needed :
+  exists r res, analyze_program 8 no_ctr one_pkg ex_iface = Some r /\
+    analyze_pkg all_exported 200 [] [] (map etrig (r_decl r ++ concat (r_funcs r) ++ concat (r_dups r))) = Finished res /\
+    r_conflicts res = [].
+Proof. ex_solve. Qed.
